@@ -133,7 +133,7 @@ Proof.
   destruct (wf_conn_target st w i n H Hw) as (sb' & r' & G & R & Hin).
   rewrite Hsb in G. inversion G; subst sb'. rewrite Hrep in R. inversion R; subst r'.
   unfold conn_ptr. rewrite get_connptr_null_watchers.
-  apply existsb_wref in Hin. rewrite Hin. reflexivity.
+  apply existsb_wref in Hin. rewrite Hin. destruct (get_connptr w st3); reflexivity.
 Qed.
 
 (* ------------------------------------------------------------------ *)
@@ -300,7 +300,8 @@ Proof.
   destruct (scoped_disc_first (WK k) st i n im r sb HT Hp Hi Hsb Hrep Hatt) as (st3 & E & Hin & F3 & Him & Hc & Hk).
   cbn [step] in Hstep. rewrite Hp, E in Hstep. cbn [rbind] in Hstep.
   assert (G : get_connptr (WK k) (null_watchers (r_watch r) st3) = Some None).
-  { rewrite get_connptr_null_watchers. apply existsb_wref in Hin. rewrite Hin. reflexivity. }
+  { rewrite get_connptr_null_watchers. apply existsb_wref in Hin. rewrite Hin.
+    rewrite (get_connptr_eq _ _ _ Hc Hk), Hp. reflexivity. }
   rewrite G in Hstep. cbn [watch_remove rbind liftu lift] in Hstep. inversion Hstep; subst st'. clear Hstep.
   split.
   - cbn [get_connptr sconns with_sconns]. rewrite aget_aset_same. reflexivity.
@@ -326,7 +327,8 @@ Proof.
   destruct (scoped_disc_first (WK k) st i n im r sb HT Hp Hi Hsb Hrep Hatt) as (st3 & E & Hin & F3 & Him & Hc & Hk).
   cbn [step] in Hstep. rewrite Hp, Hpc, E in Hstep. cbn [rbind] in Hstep.
   assert (G : get_connptr (WK k) (null_watchers (r_watch r) st3) = Some None).
-  { rewrite get_connptr_null_watchers. apply existsb_wref in Hin. rewrite Hin. reflexivity. }
+  { rewrite get_connptr_null_watchers. apply existsb_wref in Hin. rewrite Hin.
+    rewrite (get_connptr_eq _ _ _ Hc Hk), Hp. reflexivity. }
   assert (G' : get_connptr (WC c) (null_watchers (r_watch r) st3) = Some pc).
   { rewrite get_connptr_null_watchers. destruct (existsb (wref_eqb (WC c)) (r_watch r)) eqn:X.
     - apply existsb_wref in X. contradiction.
